@@ -56,9 +56,14 @@ class Norm:
         """strip casts and follow single-definition locals"""
         n = self.strip(n)
         seen = 0
-        while n is not None and self.inline and seen < 8:
+        while n is not None and seen < 8:
             r = n.get('ref')
             if r and r['k'] == 'Local' and r['n'] not in self.env:
+                if not self.inline:
+                    # names are kept, except locals the reference tree did not have
+                    fl = getattr(self.f, 'frozen_locals', None)
+                    if fl is None or r['n'] in fl:
+                        break
                 d = single_def(self.f, r['id'])
                 if d is None:
                     d = reaching_def(self.f, n)
